@@ -1145,6 +1145,8 @@ func (t *Topic) handleNoteBroadcast(msg *ClientComMessage) {
 	if pud.deleted {
 		mode = types.ModeInvalid
 	}
+	// A channel reader is one whichever name the note uses for the topic.
+	asChan = asChan || pud.isChan
 
 	switch msg.Note.What {
 	case "kp", "kpa", "kpv":
@@ -1195,7 +1197,10 @@ func (t *Topic) handleNoteBroadcast(msg *ClientComMessage) {
 
 	if seq > 0 {
 		topicName := t.name
-		if asChan {
+		if pud.isChan {
+			// The subscription of a channel reader is stored under the channel name.
+			topicName = types.GrpToChn(t.name)
+		} else if asChan {
 			topicName = msg.Note.Topic
 		}
 
